@@ -19,6 +19,7 @@ var VerifZlibIn [][]byte
 var VerifZlibOut [][]byte
 var VerifZlibMode []int
 var verifZlibOutLen = 5
+var verifZlibBigOut = 0
 
 var errVerifZlib = errors.New("zlib: stub failure")
 
@@ -63,7 +64,17 @@ func verifZlibStub(r io.Reader) (io.ReadCloser, error) {
 		VerifZlibOut = append(VerifZlibOut, nil)
 		return nil, errVerifZlib
 	}
-	out := verifBytes(verifZlibOutLen)
+	var out []byte
+	if verifZlibBigOut > 0 {
+		// a large profile: content concrete (the checks compare it byte for byte with what
+		// the accessor returns; its values do not influence any branch)
+		out = make([]byte, verifZlibBigOut)
+		for i := 0; i < len(out); i += 4099 {
+			out[i] = byte(i>>8) | 1
+		}
+	} else {
+		out = verifBytes(verifZlibOutLen)
+	}
 	VerifZlibOut = append(VerifZlibOut, out)
 	return &verifZlibReader{data: out, fail: mode == 2}, nil
 }
